@@ -9,6 +9,11 @@
 #include <glm/gtc/quaternion.hpp>
 #include <glm/ext/scalar_int_sized.hpp>
 #include <glm/ext/scalar_uint_sized.hpp>
+#include <glm/fwd.hpp>
+#if GLM_CONFIG_ALIGNED_GENTYPES == GLM_ENABLE
+#include <glm/gtc/type_aligned.hpp>
+#endif
+#include "c16_typedefs.inc"
 #include <cstddef>
 #include <functional>
 #include <type_traits>
@@ -193,6 +198,50 @@ template <glm::qualifier Q> static void reg_q() {
 	reg_tq<glm::int64, Q>(); reg_tq<glm::uint64, Q>(); reg_tq<float, Q>(); reg_tq<double, Q>();
 }
 
+// ---- named typedefs (glm/fwd.hpp, gtc/type_aligned.hpp): the name decides the type ---------------------------------------
+struct TdRow { const char* name; const char* expected; bool same; size_t size, align, esize, ealign; };
+#define TDROW(NAME, ...) {#NAME, #__VA_ARGS__, std::is_same<glm::NAME, __VA_ARGS__>::value, sizeof(glm::NAME), alignof(glm::NAME), sizeof(__VA_ARGS__), alignof(__VA_ARGS__)},
+static const TdRow TD_ROWS[] = {
+	TD_FWD(TDROW)
+#if GLM_CONFIG_ALIGNED_GENTYPES == GLM_ENABLE
+	TD_ALIGNED(TDROW)
+#endif
+};
+static void prop_typedefs(pbt::Ctx& c) {
+	const size_t N = sizeof(TD_ROWS) / sizeof(TD_ROWS[0]);
+	const TdRow& r = TD_ROWS[c.draw(N)];
+	c.logf("glm::%s", r.name);
+	c.nontrivial();
+	c.cls(strncmp(r.name, "aligned_", 8) == 0 ? "aligned_*" : strncmp(r.name, "packed_", 7) == 0 ? "packed_*" : "fwd.hpp");
+	if (!r.same) c.failk(std::string("typedef/") + r.name + "/type", "glm::%s is not %s (sizeof %zu alignof %zu; the named type has sizeof %zu alignof %zu)", r.name, r.expected, r.size, r.align, r.esize, r.ealign);
+}
+
+// ---- what the configuration macros promise about the default types -----------------------------------------------------
+static void prop_config(pbt::Ctx& c) {
+	uint64_t k = c.draw(8);
+	c.nontrivial();
+	c.logf("configuration %s, default-type fact %d", C16_CFG, (int)k);
+#define CFG_SAME(K, A, ...) if (k == K && !std::is_same<A, __VA_ARGS__>::value) c.failk(std::string("config/") + #A, "glm::" #A " is not " #__VA_ARGS__ " in configuration %s (sizeof %zu, alignof %zu)", C16_CFG, sizeof(A), alignof(A));
+#ifdef C16_EXPECT_DEFAULT_ALIGNED
+	// manual 2.10: GLM_FORCE_DEFAULT_ALIGNED_GENTYPES makes every default gentype aligned and padded
+	CFG_SAME(0, glm::vec4, glm::vec<4, float, glm::aligned_highp>) CFG_SAME(1, glm::vec3, glm::vec<3, float, glm::aligned_highp>) CFG_SAME(2, glm::dvec2, glm::vec<2, double, glm::aligned_highp>)
+	CFG_SAME(3, glm::ivec3, glm::vec<3, int, glm::aligned_highp>) CFG_SAME(4, glm::mat3, glm::mat<3, 3, float, glm::aligned_highp>) CFG_SAME(5, glm::mat4, glm::mat<4, 4, float, glm::aligned_highp>)
+	CFG_SAME(6, glm::quat, glm::qua<float, glm::aligned_highp>) CFG_SAME(7, glm::uvec4, glm::vec<4, glm::uint, glm::aligned_highp>)
+	if (k == 1 && (sizeof(glm::vec3) != 16 || alignof(glm::vec3) != 16)) c.failk("config/vec3/size", "sizeof(vec3)=%zu alignof=%zu, manual 2.10 says 16 / 16", sizeof(glm::vec3), alignof(glm::vec3));
+	if (k == 4 && sizeof(glm::mat3) != 48) c.failk("config/mat3/size", "sizeof(mat3)=%zu, three padded columns are 48 bytes", sizeof(glm::mat3));
+	struct MyStruct { glm::vec2 a; glm::vec3 b; glm::vec2 c; };  // manual 2.10 example: 48 bytes when aligned by default (32 packed)
+	if (k == 0 && sizeof(MyStruct) != 48) c.failk("config/manual-2.10-MyStruct", "sizeof(MyStruct{vec2, vec3, vec2}) = %zu, manual 2.10 says 48", sizeof(MyStruct));
+#else
+	CFG_SAME(0, glm::vec4, glm::vec<4, float, glm::packed_highp>) CFG_SAME(1, glm::vec3, glm::vec<3, float, glm::packed_highp>) CFG_SAME(2, glm::dvec2, glm::vec<2, double, glm::packed_highp>)
+	CFG_SAME(3, glm::ivec3, glm::vec<3, int, glm::packed_highp>) CFG_SAME(4, glm::mat3, glm::mat<3, 3, float, glm::packed_highp>) CFG_SAME(5, glm::mat4, glm::mat<4, 4, float, glm::packed_highp>)
+	CFG_SAME(6, glm::quat, glm::qua<float, glm::packed_highp>) CFG_SAME(7, glm::uvec4, glm::vec<4, glm::uint, glm::packed_highp>)
+	if (k == 1 && (sizeof(glm::vec3) != 12 || alignof(glm::vec3) != 4)) c.failk("config/vec3/size", "sizeof(vec3)=%zu alignof=%zu, packed is 12 / 4", sizeof(glm::vec3), alignof(glm::vec3));
+#endif
+#ifdef C16_EXPECT_ALIGNED
+	if (GLM_CONFIG_ALIGNED_GENTYPES != GLM_ENABLE) c.failk("config/aligned-gentypes", "configuration %s was expected to provide aligned types", C16_CFG);
+#endif
+}
+
 static void prop_layout(pbt::Ctx& c) {
 	const size_t N = insts().size();
 	uint64_t i = c.draw(N * 32);
@@ -205,14 +254,14 @@ int main(int argc, char** argv) {
 #if GLM_CONFIG_ALIGNED_GENTYPES == GLM_ENABLE
 	reg_q<glm::aligned_highp>(); reg_q<glm::aligned_mediump>(); reg_q<glm::aligned_lowp>();
 #endif
-#ifdef C16_EXPECT_ALIGNED
-	if (GLM_CONFIG_ALIGNED_GENTYPES != GLM_ENABLE) { fprintf(stderr, "configuration %s was expected to provide aligned types\n", C16_CFG); return 2; }
-#endif
-#ifdef C16_EXPECT_DEFAULT_ALIGNED
-	if (!std::is_same<glm::vec4, glm::vec<4, float, glm::aligned_highp>>::value) { fprintf(stderr, "GLM_FORCE_DEFAULT_ALIGNED_GENTYPES did not make vec4 aligned\n"); return 2; }
-#endif
 	pbt::Target t; t.name = std::string("layout/") + C16_CFG; t.fn = prop_layout; t.domain = insts().size() * 32; t.quick_stride = 1; t.thorough_stride = 1;
 	t.rule = "every vec<L,T,Q> / mat<C,R,T,Q> / qua<T,Q> instantiation of this configuration x 32 tag fillings; non-trivial = more than one component (order observable), distinct tags";
 	pbt::targets().push_back(t);
+	pbt::Target t2; t2.name = std::string("typedefs/") + C16_CFG; t2.fn = prop_typedefs; t2.domain = sizeof(TD_ROWS) / sizeof(TD_ROWS[0]); t2.quick_stride = 1; t2.thorough_stride = 1;
+	t2.rule = "every named vec/mat/quat typedef of glm/fwd.hpp and (with aligned gentypes) glm/gtc/type_aligned.hpp present in the tree: the type it denotes is the one its name spells ([aligned_|packed_][precision_]<element><shape>), so a packed_* name is L contiguous T and an aligned_* name is padded; non-trivial = every row";
+	pbt::targets().push_back(t2);
+	pbt::Target t3; t3.name = std::string("config/") + C16_CFG; t3.fn = prop_config; t3.domain = 8; t3.quick_stride = 1; t3.thorough_stride = 1;
+	t3.rule = "the default gentypes (vec4, vec3, dvec2, ivec3, mat3, mat4, quat, uvec4) are the packed types, or with GLM_FORCE_DEFAULT_ALIGNED_GENTYPES the aligned ones (manual 2.10 sizes, MyStruct example); non-trivial = every fact";
+	pbt::targets().push_back(t3);
 	return pbt::pbt_main(argc, argv, "C16");
 }
